@@ -249,11 +249,11 @@ func mustRead(p string) []byte {
 func init() {
 	hx.Registry["c20-flat"] = func(tier string) []*hx.Scope {
 		n := 4
-		seeds := []string{"empty", "twolevel", "freeruns"}
+		seeds := []string{"empty", "twolevel", "freeruns", "bigkeys"}
 		cs := []apix.Cfg{{PageSize: 1024, Freelist: "array"}, {PageSize: 4096, Freelist: "hashmap", NoFreelistSync: true}, {PageSize: 16384, Freelist: "array"}}
 		if tier == "thorough" {
 			n = 5
-			seeds = []string{"empty", "inline", "twolevel", "threelevel", "overflow", "freeruns"}
+			seeds = []string{"empty", "inline", "twolevel", "threelevel", "overflow", "freeruns", "bigkeys"}
 			cs = append(cs, apix.Cfg{PageSize: 1024, Freelist: "hashmap", NoFreelistSync: true}, apix.Cfg{PageSize: 4096, Freelist: "array"})
 		}
 		return mk("c20-flat", seeds, cs, n, 0, flatAlphabet([]string{"a", "L1"}, []string{"s", "X"}, true), boundaryC20)
